@@ -412,7 +412,7 @@ func c14Judge(c *mon.Ctx, in *c14Script) {
 	c.Eval(1)
 	s := []byte(in.Script)
 	scr := bscript.NewFromBytes(mon.Exact(s)) // capacity == length: an access behind the end cannot go unnoticed
-	defer func() { // every query is a read: the script is afterwards what it was
+	defer func() {                            // every query is a read: the script is afterwards what it was
 		if !bytes.Equal(*scr, s) {
 			c.Violationf("C14:inspection-changed-the-script", "after the inspection queries the script is %x, it was %x", []byte(*scr), s)
 		}
